@@ -58,6 +58,26 @@ PROPS = {
                      "(value-level counts are in the counters)",
                 assumptions=["JSON / URL / proto round trips are claimed for valid UTF-8 field contents (the encodings cannot carry other byte strings)",
                              "the string-form domain is the one stated at the top of harness/verifh/c18_test.go"]),
+    "C10": dict(test="TestC10", level="exploration", runs=[("", "plain", 16)], timeout=(900, 5400), floor=(9000, 29000),
+                rule="case = generated namespace AST (all operator kinds, nesting of '(' and '!' up to the documented limit 10) rendered to OPL text with random documented spellings, "
+                     "parsed by the real schema.Parse and compared with the generating AST (declarations, truth table over the distinct leaves, structure up to flattening); "
+                     "every 50th (quick) / 400th (thorough) index additionally runs a standalone permission end to end on a server configured with the text; "
+                     "non-trivial = a permission of a judged case, distinct by (case, namespace, permission), or an executed end-to-end case",
+                assumptions=["TypeScript itself is not executed: 'what TypeScript means' is !, &&, || with the standard precedence; the renderer's expressions were cross-checked against node (TestC10RendererSelfTest)",
+                             "cases whose rendering nests deeper than the documented limit (10) are outside the property and only counted"]),
+    "C11": dict(test="TestC11", level="exploration", runs=[("", "plain", 16)], timeout=(900, 5400), floor=(34000, 25000),
+                rule="evaluation = one real-engine check of a declared (namespace, relation) on an accepted, well-typed generated program with type-conforming tuples (default and strict mode), "
+                     "or one single-reference mutation (undeclared name) judged by schema.Parse incl. the error span; "
+                     "non-trivial = a check that needed >= 2 storage calls, distinct by (case, mode, query), or a mutation, distinct by (case, site)",
+                assumptions=["'well typed' and 'conforming' are the harness's reading of the spec's type rules (cfgTypeErrors / conforms in c11_test.go)",
+                             "checks that hit the wall-clock timeout give no decision and are only counted"]),
+    "C12": dict(test="TestC12", level="exploration", runs=[("", "plain", 16)], timeout=(900, 5400), floor=(180000, 130000),
+                rule="evaluation = one input (random bytes, invalid UTF-8, token soups, valid and mutated programs, unterminated strings/comments at every offset, nesting 1..200, "
+                     "long identifiers, CRLF, multibyte text, sizes up to 1 MiB, type-check fan-out family, operator placements) through schema.Parse under the step budget "
+                     "100*(len+64) with the panic / result / position / rendering oracles, a deterministic quarter of them also through REST and gRPC; "
+                     "non-trivial = the parser consumed >= 3 tokens; distinct by input bytes",
+                assumptions=["'linear' is decided on hook steps (lexer rune reads, parser token reads, emitted errors, type-check recursions), never on the clock; work that passes no hook (namespace lookup in the type checker, error position computation) is not measured",
+                             "inputs are at most 1 MiB"]),
 }
 
 ASSUMPTIONS_COMMON = [
@@ -294,7 +314,7 @@ def supervise(prop, cfg, tier, seed, workdir, replay, t0):
         evaluations += res.get("evaluations", 0)
         nontriv.update("%s/%s" % (mode, s) for s in (res.get("nontrivial_sigs") or []))
         for k, v in (res.get("counters") or {}).items():
-            counters[k] = counters.get(k, 0) + v
+            counters[k] = max(counters.get(k, 0), v) if k.startswith("max_") else counters.get(k, 0) + v
         for k, v in (res.get("sets") or {}).items():
             sets.setdefault(k, set()).update(v)
         for s in (res.get("samples") or []):
